@@ -453,21 +453,24 @@ def job_object(n, bits, custom):
     return recs
 
 
-def job_complex_sequence(period, ncalls, bits, customs=None):
+def job_complex_sequence(period, ncalls, bits, customs=None, kinds=None):
     """several calls of one ComplexQuantizer: between refreshes each part is scaled with ITS OWN cached estimates.
-    customs: per call, 'c' = a custom deviation pair is supplied on that call, 'n' = none"""
+    customs: per call, 'c' = a custom deviation pair is supplied on that call, 'n' = none
+    kinds: per call, 'z' = complex-typed input, 'r' = a real-typed array (its imaginary part is the zero array: a legal
+    zero-variance input that is quantised and counted like any other)"""
     recs = []
     customs = customs or 'n' * ncalls
-    tag = f"C09:complex-seq:{(period, ncalls, bits, customs)}"
+    kinds = kinds or 'z' * ncalls
+    tag = f"C09:complex-seq:{(period, ncalls, bits, customs)}" + (f":{kinds}" if 'r' in kinds else '')
     n, nstat = 2, 2
-    ins = [(sym_stream(f'xr{c}', n), sym_stream(f'xi{c}', n)) for c in range(ncalls)]
+    ins = [(sym_stream(f'xr{c}', n), sym_stream(f'xi{c}', n) if kinds[c] == 'z' else [0.0] * n) for c in range(ncalls)]
     cst = [[Sym(z3.Real(f'cs{c}_r')), Sym(z3.Real(f'cs{c}_i'))] if customs[c] == 'c' else None for c in range(ncalls)]
     pre_c = [v.t > 0 for pr in cst if pr for v in pr]
 
     def run():
         def body():
             cq = Q.ComplexQuantizer(target_fwhm=32, num_bits=bits, stats_calc_period=period, stats_calc_num_samples=nstat)
-            return [cq.quantize(npx.sarr([SymC(a, b) for a, b in zip(xr, xi)]), custom_stds=cst[c]) for c, (xr, xi) in enumerate(ins)], cq
+            return [cq.quantize(npx.sarr([SymC(a, b) for a, b in zip(xr, xi)]) if kinds[c] == 'z' else npx.sarr(list(xr)), custom_stds=cst[c]) for c, (xr, xi) in enumerate(ins)], cq
         (outs, cq), st = with_stats_stub(body)
         return outs, cq, st
     with volt_patches():
@@ -478,7 +481,7 @@ def job_complex_sequence(period, ncalls, bits, customs=None):
         conds.append(leaf.cond())
         base = pre_c + leaf.pc + leaf.side
         name = f"{tag}:leaf{li}"
-        pl = dict(fn='object', n=3, bits=bits, custom='none', customs=customs, period=period)
+        pl = dict(fn='object', n=3, bits=bits, custom='none', customs=customs, period=period, kinds=kinds)
         if leaf.kind == 'exc':
             r, _ = core.check(base)
             recs.append(q(name + ':noexc', r, detail=repr(leaf.value)))
@@ -489,7 +492,8 @@ def job_complex_sequence(period, ncalls, bits, customs=None):
         refresh = [c for c in range(ncalls) if (period > 0 and c % period == 0) or c == 0]
         # estimates are taken on the refresh calls only, one of each part, from that call's own samples
         okcalls = len(st.calls) == 2 * len(refresh) and all(
-            all(a is b for a, b in zip(st.calls[2 * k][0], list(ins[c][0]))) and all(a is b for a, b in zip(st.calls[2 * k + 1][0], list(ins[c][1])))
+            all(a is b for a, b in zip(st.calls[2 * k][0], list(ins[c][0]))) and
+            (all(a is b for a, b in zip(st.calls[2 * k + 1][0], list(ins[c][1]))) if kinds[c] == 'z' else all(core.const_value(lift(a)) == 0 for a in st.calls[2 * k + 1][0]))
             for k, c in enumerate(refresh))
         r0, _ = core.check([RV(int(okcalls)) != 1])
         recs.append(q(name + ':estimates', r0, trivial=True, detail=f"{len(st.calls)} estimates for refresh calls {refresh}"))
@@ -845,14 +849,17 @@ def replay_object(p):
             bad.append(f"cached statistics of the {part} part are {list(cache)}, its own estimate is {[np.mean(x[:2]), np.std(x[:2])]}")
     # several calls, with and without a custom deviation: between refreshes each part keeps using ITS OWN estimates
     patterns = sorted({'nnnn', 'cccc', 'cnnn', 'ncnc', (p.get('customs') or 'nnnn').ljust(4, 'n')[:4]})
+    kind_pats = sorted({'zzzz', 'rzzr', 'zrzz', (p.get('kinds') or 'zzzz').ljust(4, 'z')[:4]})
     for period in sorted({1, 3, 0, -1, p.get('period', 1)}):
-        for pat in patterns:
+        for pat, kp in [(a_, b_) for a_ in patterns for b_ in (kind_pats if a_ == 'nnnn' else ['zzzz'])]:
             cq = qz.ComplexQuantizer(target_fwhm=32, num_bits=bits, stats_calc_period=period, stats_calc_num_samples=2)
             est = {}
             for call in range(4):
                 xr_, xi_ = rng.normal(call, 3 + call, n), rng.normal(-2 * call, 1 + call, n)
+                if kp[call] == 'r':
+                    xi_ = np.zeros(n)                  # a real-typed array: its imaginary part is the zero array
                 cs_ = [2.5, 0.5] if pat[call] == 'c' else None
-                out = cq.quantize(xr_ + 1j * xi_, custom_stds=cs_)
+                out = cq.quantize(xr_ + 1j * xi_ if kp[call] == 'z' else xr_, custom_stds=cs_)
                 if (period > 0 and call % period == 0) or call == 0:
                     est = {0: (np.mean(xr_[:2]), np.std(xr_[:2])), 1: (np.mean(xi_[:2]), np.std(xi_[:2]))}
                 for part, x, sel in (('re', xr_, 0), ('im', xi_, 1)):
@@ -860,7 +867,7 @@ def replay_object(p):
                     want = ref_q(x, 0.0, tstd, bits, mu, sd if cs_ is None else cs_[sel])
                     got = (np.real(out) if sel == 0 else np.imag(out)).astype(int)
                     if not np.array_equal(got, want):
-                        bad.append(f"period {period}, custom deviations on calls {[i for i, ch in enumerate(pat) if ch == 'c']}, call {call}, {part}: {got} != {want} (its own estimates of the last refresh)")
+                        bad.append(f"period {period}, custom deviations on calls {[i for i, ch in enumerate(pat) if ch == 'c']}, real-typed input on calls {[i for i, ch in enumerate(kp) if ch == 'r']}, call {call}, {part}: {got} != {want} (its own estimates of the last refresh)")
                         break
     return bool(bad), '; '.join(bad[:3]) or 'complex quantiser agrees'
 
@@ -917,6 +924,8 @@ def main():
         jobs.append(('job_complex_sequence', (period, 3 if not ck.thorough else 4, 2)))
         for customs in ('cnn', 'ncn', 'cnc'):
             jobs.append(('job_complex_sequence', (period, 3, 2, customs)))
+        for kinds in ('rzz', 'zrz'):
+            jobs.append(('job_complex_sequence', (period, 3, 2, None, kinds)))
     for period in (1, 2, 0, -1):
         jobs.append(('job_real_sequence', (period, 3, 2)))
     for before in (1, 2, 3):
